@@ -274,6 +274,22 @@ class CFG:
             self._edge(self.entry, frag.entry, "n")
             for n, l in frag.outs:
                 self._edge(n, self.exit, l)
+        if self.inlined:
+            self._prune_unreachable()
+
+    def _prune_unreachable(self):
+        """Inlining can leave nodes no path reaches (the fall-off return of a helper that always returns, the join
+        after it): drop them, rules enumerate nodes."""
+        seen = self.reachable([self.entry])
+        keep = {self.entry.id, self.exit.id, self.raise_exit.id} | seen
+        dead = [n for n in self.nodes if n.id not in keep]
+        if not dead:
+            return
+        deadids = {n.id for n in dead}
+        self.nodes = [n for n in self.nodes if n.id not in deadids]
+        for n in self.nodes:
+            n.pred = [(p_, l) for p_, l in n.pred if p_.id not in deadids]
+            n.succ = [(m, l) for m, l in n.succ if m.id not in deadids]
 
     # -- construction helpers
     def _new(self, kind, ast_node=None, ctxs=(), label="") -> Node:
@@ -561,6 +577,20 @@ class CFG:
         if isinstance(e, ast.UnaryOp) and isinstance(e.op, ast.Not):
             en, t, f = self._cond(e.operand, ctxs)
             return en, f, t
+        # `(x := E) is not None` as a test atom: the binding first, then the test on x
+        walrus = [x for x in ast.walk(e) if isinstance(x, ast.NamedExpr) and isinstance(x.target, ast.Name)]
+        if walrus and not any(isinstance(x, (ast.Lambda, ast.ListComp, ast.SetComp, ast.DictComp, ast.GeneratorExp, ast.IfExp, ast.BoolOp)) for x in ast.walk(e)):
+            from .inline import replace_node
+            frs = []
+            e2 = e
+            for w in walrus:
+                asg = ast.Assign(targets=[ast.Name(id=w.target.id, ctx=ast.Store())], value=w.value, lineno=getattr(w, "lineno", 0), col_offset=0)
+                frs.append(self._stmt(asg, ctxs))
+                e2 = replace_node(e2, w, ast.copy_location(ast.Name(id=w.target.id, ctx=ast.Load()), w))
+            en, t_, f_ = self._cond(e2, ctxs)
+            pre = self._seq(frs)
+            self._connect(pre.outs, en)
+            return pre.entry, t_, f_
         dec = self._decide_atom(e)
         if dec is not None:
             n = self._new("test", e, ctxs)
